@@ -420,6 +420,13 @@ def run_case(ctx, case, mout, nanmode=False, note=True):
     if mout is None:
         mout = [None]
     mst = mout[0]
+    evs = list(case['events'])
+    want = [v for v, (a, b) in zip(case['values'], zip(evs, evs[1:])) for _ in range(b - a)]
+    if not nanmode and st[3] != want:
+        ctx.disagree(sig0 + 'op=init;symptom=per_dump_list', case, st, mst,
+                     'the per-dump list of a freshly built series is not the given values over the given events '
+                     '(values merged / indices wrong)', spec=want)
+        return
     if mst is not None and not same_state(st, mst, nanmode):
         ctx.disagree(sig0 + 'op=init;symptom=state', case, st, mst, 'constructor state differs from model', kind='tie')
         return
@@ -866,6 +873,8 @@ def gen_heap_op(rng, objs):
     N = int(cd.events[-1])
     empty = len(cd.indices) == 0
     r = rng.random()
+    if len(objs) == 1 and not empty and N >= 1 and rng.random() < 0.35:
+        r = 0.7                     # start sharing early: partition the only container
     if empty or N < 1 or r < 0.30:
         e = rng.randrange(N) if N > 0 and rng.random() < 0.85 else rng.choice([N, N + 1, -1, 0])
         v = [rng.randrange(5)] if (empty or rng.random() < 0.7) else []
